@@ -564,6 +564,8 @@ fn bounds(tier: Tier) -> Vec<(Cfg11, usize)> {
             (c(Fam::Rtx, 0, true, false, 2), 3),
             // concurrent formatting of overlapping ranges, one key with three values, local and remote
             (c(Fam::Rtx, 3, true, false, 1), 3),
+            // shared types embedded in a text, deletion ranges over them
+            (c(Fam::Rtx, 4, true, false, 2), 3),
             (c(Fam::Arr, 0, true, false, 3), 4),
             (c(Fam::Map, 1, true, false, 3), 4),
             (c(Fam::Nest, 0, true, false, 2), 3),
@@ -577,6 +579,7 @@ fn bounds(tier: Tier) -> Vec<(Cfg11, usize)> {
             (c(Fam::Rtx, 0, true, false, 3), 4),
             (c(Fam::Rtx, 1, true, false, 2), 3),
             (c(Fam::Rtx, 3, true, false, 2), 4),
+            (c(Fam::Rtx, 4, true, false, 2), 4),
             (c(Fam::Arr, 1, true, false, 3), 4),
             (c(Fam::Arr, 0, true, false, 3), 5),
             (c(Fam::Map, 1, true, false, 3), 5),
